@@ -911,6 +911,31 @@ void run_view(const Case &c, pbt::Ctx &ctx, Trace &tr) {
                   assigned.Length() == a.size() && va.IsEmpty() == a.empty() && va.IsNotEmpty() != a.empty() &&
                   (a.empty() ? true : (va.Last() == va.First() + (a.size() - 1) && va.End() == va.First() + a.size())) &&
                   ((va == vb) == (a == b)) && ((va != vb) == (a != b)) && (va.IsEqual(bb.cp(), SizeT(bb.n)) == (a == b)) && ((va == z.get()) == true);
+        // ordering operators against a lexicographic model (units compared as Char_T compares them)
+        auto ref_cmp = [](const Units &x, const Units &y) {
+            for (size_t i = 0; i < x.size() && i < y.size(); ++i) {
+                if (Char_T(x[i]) != Char_T(y[i])) {
+                    return Char_T(x[i]) < Char_T(y[i]) ? -1 : 1;
+                }
+            }
+            return x.size() == y.size() ? 0 : (x.size() < y.size() ? -1 : 1);
+        };
+        auto ord_ok = [](const StringView<Char_T> &l, const StringView<Char_T> &r, int ref) {
+            return (l < r) == (ref < 0) && (l <= r) == (ref <= 0) && (l > r) == (ref > 0) && (l >= r) == (ref >= 0) && (l == r) == (ref == 0);
+        };
+        ok = ok && ord_ok(va, vb, ref_cmp(a, b)) && ord_ok(vb, va, ref_cmp(b, a)) && ord_ok(va, va, 0);
+        {   // views that share their start: a prefix of a buffer against the whole buffer, and against the C string it is cut from
+            const size_t       k = (a.size() * 7 + step) % (a.size() + 1);
+            const Units        ap(a.begin(), a.begin() + long(k));
+            StringView<Char_T> pa{ba.cp(), SizeT(k)};
+            ok = ok && ord_ok(pa, va, ref_cmp(ap, a)) && ord_ok(va, pa, ref_cmp(a, ap));
+            if (!has_nul(a)) {
+                StringView<Char_T> pz{z.get(), SizeT(k)};
+                const int          r = ref_cmp(ap, a);
+                ok = ok && (pz < z.get()) == (r < 0) && (pz <= z.get()) == (r <= 0) && (pz > z.get()) == (r > 0) && (pz >= z.get()) == (r >= 0) &&
+                     (pz == z.get()) == (r == 0);
+            }
+        }
         size_t n = 0;
         for (Char_T ch : va) {
             ok = ok && n < a.size() && jm::unit_of(ch) == a[n];
